@@ -11,6 +11,11 @@ CLAIMS = {
    note="Trusted: Coq kernel + vm_compute, translator, extraction + OCaml driver, http::StatusCode constant table, mediatype parse model, hand model of responses.rs validated only on sampled inputs. Body decoding is not modelled (extraction kind only).",
    technique="Coq proof (induction over sorted response maps + finite sweeps by vm_compute) with source-to-Gallina translation of tables and differential correspondence of the hand model",
    design="§4 C04", engine="coq+translate+cli"),
+ "C20": dict(
+   text="Coq theorems (closed under the global context) about a chunk-level model of the whole SSE stack (Utf8Stream with the Unicode Table 3-7 DFA, nom-streaming line parser, EventBuilder, both EventStreams): for EVERY well-formed UTF-8 byte stream and EVERY two ways of cutting it into chunks (no bound on sizes, counts or cut positions, empty chunks included) the same events are delivered in the same order and no byte is left undecoded (C20_chunk_independent, C20_nothing_left_over, C20_string_chunking, C20_line_prefix_stable, C20_utf8_conservation); a not-ready poll is a no-op (C20_pending_noop). The two input classes on which the unchanged tree violates the property are refuted by computed witnesses (C20_refuted_bom, C20_refuted_trailing_cr) and recorded as known findings. Tie: correspondence — the extracted poll-level machine and the real oas3_gen_support::EventStream run the same poll scripts (all 2^(n-1) chunkings of short streams, random long scripts with Pending polls, ill-formed bytes).",
+   note="Trusted: Coq kernel + vm_compute (witnesses only), extraction + OCaml driver, tools/sse_probe, hand model of eventsource-stream 0.2.3/nom streaming semantics validated only on sampled scripts. Partial: the one-event-per-poll machine is tied to the chunk-level theorems by the Pending lemma and the correspondence, not by a simulation proof; refinement to the HTML standard's reading (sse_spec) is checked on all explored scripts, proved only on the Example; serde_json is a per-event decode function.",
+   technique="Coq proof (big-step drain relation + prefix stability of the streaming parser + UTF-8 DFA scan lemmas, induction over chunk lists) with differential correspondence against the support crate on scripted in-memory streams",
+   design="§4 C20", engine="coq+sse_probe"),
 }
 
 checks = []
